@@ -181,7 +181,10 @@ def dump_recipes(tree, net):
 
 def contract_opts(rng):
     return {"order": rng.choice(["dfs", "dfs", "len", "random"]), "prefer_einsum": rng.random() < 0.4,
-            "impl": rng.choice([None, "cotengra", "autoray"])}
+            "impl": rng.choice([None, "cotengra", "autoray"]),
+            # mantissa x 10**exponent is the same value (a zero-valued slice gives nan without check_zero: C19's
+            # known finding, so the zero check is always on here)
+            "strip": rng.random() < 0.2}
 
 
 def make_case(rng, tier):
@@ -205,10 +208,28 @@ def make_case(rng, tier):
             ["sort", "contract", "slice_auto", "contract", "unslice_all", "contract"],
             ["contract", "forest", "contract"],
             ["sort", "contract", "copy", "slice", "contract"],
+            # recipes filled by *queries* only (nothing compiled, `contraction_cores` empty), then a short
+            # transformation that re-creates few nodes, then a contraction
+            ["recipes", "anneal-short", "contract"],
+            ["sort", "recipes", "anneal-short", "contract"],
+            ["recipes", "temper-short", "contract"],
+            ["recipes", "reconf", "contract"],
+            ["slice", "recipes", "anneal-short", "restore", "contract"],
         ])
         hist = []
         for k in tmpl:
-            hist += treehist.gen_history(rng, net, 1, ops=(k,))
+            if k == "recipes":
+                hist.append({"k": "stats", "seed": rng.randrange(1 << 30), "which": "recipes"})
+            elif k == "anneal-short":
+                h1 = treehist.gen_history(rng, net, 1, ops=("anneal",))
+                h1[0].update(tsteps=1, numiter=rng.choice([1, 1, 2]))
+                hist += h1
+            elif k == "temper-short":
+                h1 = treehist.gen_history(rng, net, 1, ops=("temper",))
+                h1[0].update(tsteps=1, numiter=1, div=None, parallel_slice_mode="temperature")
+                hist += h1
+            else:
+                hist += treehist.gen_history(rng, net, 1, ops=(k,))
         hist += treehist.gen_history(rng, net, rng.randint(0, 2), ops=OPS)
     else:
         hist = treehist.gen_history(rng, net, L, ops=OPS)
@@ -230,6 +251,16 @@ def reference(net, arrays, tree):
 
 def do_contract(tree, arrays, o, seed):
     order = c01.make_order(o["order"], seed)
+    if o.get("strip"):
+        m, e = tree.contract([np.asarray(a, dtype=float) for a in arrays], order=order,
+                             prefer_einsum=o["prefer_einsum"], implementation=o["impl"],
+                             strip_exponent=True, check_zero=True)
+        if float(e) == float("-inf"):
+            # `check_zero` met an all-zero intermediate: the documented answer is the pair (0.0, -inf), a scalar
+            # standing for the all-zero result
+            return "ALLZERO"
+        # integer inputs of small magnitude: the exact value is recovered by rounding
+        return np.rint(np.asarray(m, dtype=float) * 10.0 ** float(e)).astype(np.int64)
     return tree.contract(arrays, order=order, prefer_einsum=o["prefer_einsum"], implementation=o["impl"])
 
 
@@ -239,6 +270,8 @@ def value_ok(tree, net, arrays, o, seed):
         x = do_contract(tree, arrays, o, seed)
     except Exception as e:
         return "raises %s: %s" % (type(e).__name__, str(e)[:100])
+    if isinstance(x, str) and x == "ALLZERO":
+        return None if all(int(v) == 0 for v in res.values()) else "(0.0, -inf) returned for a non-zero result"
     return c01.compare_with_reference(x, oshape, res)
 
 
